@@ -103,12 +103,27 @@ func rulesC14(c *Ctx) {
 
 	// ---- R1 body after prerequisites ----------------------------------------------
 	var wcall, rcall *ssa.Call
+	isBody := func(ci *CallInfo) bool {
+		return ci.Method != nil && ci.Method.Name() == "Run" && strings.HasSuffix(qualObj(ci.Method), "(Sandbox).Run")
+	}
 	for _, ci := range Calls(runGo) {
 		if ci.Static == waitFor {
 			wcall, _ = ci.Instr.(*ssa.Call)
 		}
-		if ci.Method != nil && ci.Method.Name() == "Run" && strings.HasSuffix(qualObj(ci.Method), "(Sandbox).Run") {
+		if isBody(ci) {
 			rcall, _ = ci.Instr.(*ssa.Call)
+		}
+	}
+	if rcall == nil {
+		// the body may be started from a private helper: then the call of that helper is "the body" in runGo
+		for _, ci := range Calls(runGo) {
+			if ci.Static != nil && ci.Static.Pkg == runGo.Pkg && ci.Kind == "call" && ci.Static != waitFor {
+				for _, inner := range Calls(ci.Static) {
+					if isBody(inner) {
+						rcall, _ = ci.Instr.(*ssa.Call)
+					}
+				}
+			}
 		}
 	}
 	if wcall == nil || rcall == nil {
@@ -205,7 +220,8 @@ func rulesC14(c *Ctx) {
 		var out []*CallInfo
 		for _, ci := range Calls(f) {
 			if ci.Static != nil && qualName(ci.Static) == "sync.(WaitGroup)."+m {
-				if fa, ok := ci.Recv().(*ssa.FieldAddr); ok && strings.HasSuffix(fieldName(fa), "tasks.Task.wg") {
+				// the task's own WaitGroup field (found by type, whatever it is called)
+				if fa, ok := ci.Recv().(*ssa.FieldAddr); ok && strings.Contains(fieldName(fa), "tasks.Task.") {
 					out = append(out, ci)
 				}
 			}
